@@ -21,7 +21,17 @@ CHECKS = {
         category="exploration", design_ref="DESIGN.md 5/C12",
         technique="deterministic simulation: seeded block-command histories against an independently written sparse-disk target behind simulated SG_IO and iSCSI bindings; reference-model check after every command plus transport differential; status-fault configuration separate",
         text="Seeded histories (3-40 commands, boundary-biased LBAs up to 2**64-2, five block sizes, unique payloads) are executed through the real facade, command classes and both device classes against a target that decodes CDBs from SBC; after every command the read data, the target's disk and the reference model must agree and the two transports must behave identically. Sampling, not proof.",
-        note="Trusts t10/targets.BlockLU and the stub bindings (iSCSI stub moves data according to the Task's direction/length, as on the wire). Transfer lengths above 2**16 blocks not explored."),
+        note="Trusts t10/targets.BlockLU and the stub bindings (iSCSI stub moves data according to the Task's direction/length, as on the wire). Transfer lengths above 2**17 blocks not explored."),
+    "C15": dict(
+        category="exploration", design_ref="DESIGN.md 5/C15",
+        technique="deterministic simulation with fault injection: seeded event histories (execute / replug / unplug / plug / failing close / CHECK CONDITION / close / with-exit) over a virtual /dev namespace; handle model checked over the seam history after every event",
+        text="The OS device node is simulated (inodes, handle generations, close faults of two flavours); SCSIDevice, ISCSIDevice and the facade's context manager run unmodified. After every event the oracle checks, from the recorded seam events, that no command went through a handle whose inode is not the one at the path, that superseded handles were closed, that a fresh handle was opened even when closing the stale one failed, that a vanished node is an error, that detection-off keeps the original handle, and at the end that every handle was released exactly once. Sampling of histories up to 25 events.",
+        note="Node replacement happens between library calls (sequential simulator); TOCTOU between the library's stat and ioctl is not generated. Trusts the virtual /dev model of inode and close semantics."),
+    "C16": dict(
+        category="exploration", design_ref="DESIGN.md 5/C16",
+        technique="deterministic simulation: seeded attach / re-attach / follow-up histories over simulated devices of all 32 types x 8 qualifiers on both transports, with CHECK CONDITION faults on the attach INQUIRY; seam-history and attach-model oracle, plus comparison with a history-free attach",
+        text="All (type, qualifier, transport) combinations are attached alone (enumerated, complete) and seeded histories mix up to 4 devices with re-attach, node retyping and faulted attaches. Oracle: exactly one standard INQUIRY per attach at the seam, devicetype, the family's discriminating commands offered with T10 opcodes, no other family's commands, primary commands for every other type working end to end against a target that dispatches by T10 opcode, and the selected set equal to what a fresh attach selects (no dependence on history).",
+        note="Family discriminators are named commands with T10 opcodes from t10/; for unrecognised types only the primary commands are demanded, as the property states."),
 }
 
 NOT_APPLICABLE = {
